@@ -416,7 +416,7 @@ class CfgGen:
         return ["cfg ca0:%s %s | %s" % (hx(self.ca0), " ".join(a), " ".join(b))]
 
     def mem_pairs(self):
-        """every pair of memory shapes in every memory-valued field (the F28 boundary)"""
+        """every pair of memory shapes in every memory-valued field (the F34 boundary)"""
         out = []
         for k in ("camem", "certmem", "keymem", "ocspmem"):
             for m1 in MEMS:
@@ -534,7 +534,7 @@ def run_checked(ck, run, env, ca0, cipher_ok, curve_nid):
         "sequences + tls_config_equal both ways. distinct_nontrivial = distinct op lines (hs: every session runs "
         "the real handshake; inj: every line reaches the wrapper; cfg: lines with at least one setter)")
     ck.assumptions += [
-        "fixes F17/F18 (C08), F28 (tls_mem_equal) and F29 (buflen rv) applied to the tree under test",
+        "fixes F17/F18 (C08), F34 (tls_mem_equal) and F29 (buflen rv) applied to the tree under test",
         "dates are checked as part of chain verification, i.e. only when verify_cert / verify_client is on",
         "established = both tls_handshake returned 0 and one byte went each way (TLS 1.3 reports a rejected client "
         "certificate only on the client's first read)",
